@@ -29,6 +29,8 @@ def v1_visitor_to_loop(text):
                     continue
                 a, b = toks[i + 5].text, toks[i + 7].text
                 body = text[toks[i + 9].start:toks[close].end]
+                # a `return;` of the callback ends this visit only: it is the loop's `continue`
+                body = re.sub(r"\breturn;", "continue;", body)
                 text = text[:t.start] + "for (%s, %s) in verif_%s(registry) %s" % (a, b, toks[i + 2].text, body) + text[toks[close + 2].end:]
                 hits += 1
                 break
@@ -74,6 +76,8 @@ impl Counter {
     // a plain load leaves the value in place (the next readout would report it again)
     #[verifier::external_body]
     pub fn load(&self, order: Ordering) -> (r: u64) { unimplemented!() }
+    #[verifier::external_body]
+    pub fn store(&self, val: u64, order: Ordering) { unimplemented!() }
 }
 impl Gauge {
     #[verifier::external_body]
@@ -191,12 +195,12 @@ ITEMS = [
               """let ghost mut verif_done: nat = 0; let ghost mut verif_vals = Seq::<u64>::empty();
                  proof { assert(registry.counters().skip(0) =~= registry.counters());
                          assert(registry.counters().take(0) =~= Seq::<(Key, Counter)>::empty()); }"""),
-             ("after", "let counter = counter . ___ ;",
+             ("after", "let $v = counter . ___ ;",
               """proof {
                     let reg = registry.counters();
                     assert(reg.take(verif_done as int + 1).drop_last() =~= reg.take(verif_done as int));
-                    assert(verif_vals.push(counter).drop_last() =~= verif_vals);
-                    verif_vals = verif_vals.push(counter);
+                    assert(verif_vals.push($v).drop_last() =~= verif_vals);
+                    verif_vals = verif_vals.push($v);
                     verif_done = verif_done + 1;
                     assert(reg.skip(verif_done as int - 1).skip(1) =~= reg.skip(verif_done as int));
                  }"""),
